@@ -54,6 +54,38 @@ func genC(t *rapid.T) CaseC {
 	}
 	c.Pre = rapid.IntRange(0, 4).Draw(t, "pre")
 	c.CYield = rapid.IntRange(0, 6).Draw(t, "cyield")
+	// SCALE (1 case in 40): one of the counts of the program is a threshold-adjacent large
+	// value, on top of the producers generated above
+	if agentfx.Weighted(t, "scale", 39, 1) == 1 {
+		switch agentfx.Weighted(t, "scalewhat", 2, 1, 1) {
+		case 0: // one producer queues that many jobs (mostly without pausing: a burst of relay packets)
+			n := genScale(t, "jobs", 4097, 8193)
+			relay := agentfx.Bits(t, "path", 1) == 1
+			slow := agentfx.Bits(t, "slow", 2) == 0
+			var js []JobC
+			for j := 0; j < n; j++ {
+				jb := JobC{Size: (j * 7) % 23, Relay: relay}
+				if slow && j%16 == 0 {
+					jb.Yield = 3
+				}
+				js = append(js, jb)
+			}
+			at := rapid.IntRange(0, len(c.Producers)).Draw(t, "at")
+			c.Producers = append(c.Producers[:at:at], append([][]JobC{js}, c.Producers[at:]...)...)
+		case 1: // that many producers with 1-3 jobs each
+			n := genScale(t, "producers", 129, 513)
+			for len(c.Producers) < n {
+				i := len(c.Producers)
+				js := []JobC{{Size: i % 31, Relay: i%3 == 0, Yield: i % 5}}
+				for k := 0; k < i%3; k++ {
+					js = append(js, JobC{Size: k, Relay: i%2 == 0, Yield: k})
+				}
+				c.Producers = append(c.Producers, js)
+			}
+		default: // that many tasks are already queued when the producers and the consumer start
+			c.Pre = genScale(t, "pre", 4097, 8193)
+		}
+	}
 	c.Pivot = agentfx.Weighted(t, "pivot", 3, 1, 1)
 	if c.Pivot > 0 {
 		c.PivotID = genIDA(t, map[uint32]bool{0x0a0b0001: true, 0x0a0b0102: true})
@@ -76,6 +108,7 @@ type obsC struct {
 	overlap  int // largest number of producers active around one check-in
 	checkins int
 	multi    bool
+	maxBatch int // most tasks in one reply
 }
 
 var lastC obsC
@@ -170,6 +203,9 @@ func checkC(c CaseC) *core.Violation {
 		if len(tasks) > 1 {
 			lastC.multi = true
 		}
+		if len(tasks) > lastC.maxBatch {
+			lastC.maxBatch = len(tasks)
+		}
 		delivered = append(delivered, tasks...)
 		return false
 	}
@@ -257,7 +293,7 @@ func classifyC(c CaseC) core.Class {
 			}
 		}
 	}
-	cl.Labels = append(cl.Labels, fmt.Sprintf("target-pivot-depth:%d", c.Pivot), fmt.Sprintf("producers:%d", len(c.Producers)), fmt.Sprintf("overlap:%d", o.overlap), "jobs:"+bucketC(total))
+	cl.Labels = append(cl.Labels, fmt.Sprintf("target-pivot-depth:%d", c.Pivot), "producers:"+smallC(len(c.Producers)), "overlap:"+smallC(o.overlap), "jobs:"+bucketC(total))
 	if relay {
 		cl.Labels = append(cl.Labels, "path:relay")
 	}
@@ -267,9 +303,37 @@ func classifyC(c CaseC) core.Class {
 	if o.multi {
 		cl.Labels = append(cl.Labels, "multi-task-reply")
 	}
+	maxJobs := 0
+	for _, js := range c.Producers {
+		if len(js) > maxJobs {
+			maxJobs = len(js)
+		}
+	}
+	cl.Labels = append(cl.Labels, scaleLabel("jobs-of-one-producer", maxJobs)...)
+	cl.Labels = append(cl.Labels, scaleLabel("producers", len(c.Producers))...)
+	cl.Labels = append(cl.Labels, scaleLabel("pre-queued-jobs", c.Pre)...)
+	cl.Labels = append(cl.Labels, scaleLabel("jobs-in-one-reply", o.maxBatch)...)
+	cl.Labels = append(cl.Labels, scaleLabel("check-ins-per-history", o.checkins)...)
 	cl.NonTrivial = o.overlap >= 2
-	cl.Fingerprint = fmt.Sprintf("pd=%d|p=%d|ov=%d|relay=%v|op=%v|pre=%v|jobs=%s", c.Pivot, len(c.Producers), o.overlap, relay, oper, c.Pre > 0, bucketC(total))
+	np, ov := len(c.Producers), o.overlap
+	if np > 4 { // scale cases: bucketed, or every count would be a fingerprint of its own
+		np = 5
+	}
+	if ov > 4 {
+		ov = 5
+	}
+	cl.Fingerprint = fmt.Sprintf("pd=%d|p=%d|ov=%d|relay=%v|op=%v|pre=%v|jobs=%s", c.Pivot, np, ov, relay, oper, c.Pre > 0, bucketC(total))
+	if sj, sp, sq := scaleBucket(maxJobs), scaleBucket(len(c.Producers)), scaleBucket(c.Pre); sj+sp+sq != "" {
+		cl.Fingerprint += "|scale=" + sj + "/" + sp + "/" + sq
+	}
 	return cl
+}
+
+func smallC(n int) string {
+	if n > 4 {
+		return "5+"
+	}
+	return fmt.Sprint(n)
 }
 
 func bucketC(n int) string {
@@ -288,7 +352,7 @@ func TestC04c(t *testing.T) {
 	big()
 	core.Run(t, core.Spec[CaseC]{
 		Property: "C04", Sub: "c",
-		Rule: "concurrent programs (in 2 of 5 the tasks are for a pivot agent at depth 1-2 with an id from the whole 32-bit range, and are unwrapped from the directly connected agent's check-ins): 1-4 producer goroutines with 1-40 generated jobs each (operator path with request ids / relay path with request id 0 / mixed, 0-200 data bytes, 0-12 scheduler yields x a per-producer pace of 1/8/40/150 before each AddJobToQueue), 0-4 tasks queued beforehand, one consumer doing check-ins through the real endpoint until all producers finished and the queue drained to a no-job reply; run under the race detector. Oracle: every delivered task is a queued one, none twice, none missing, per-producer order kept; race reports with a Havoc frame are violations (driver). Non-trivial: at least 2 producers were running both before and after some check-in (observed); distinct = (#producers, observed overlap, paths used, pre-queued, job-count bucket)",
+		Rule: "concurrent programs (in 2 of 5 the tasks are for a pivot agent at depth 1-2 with an id from the whole 32-bit range, and are unwrapped from the directly connected agent's check-ins): 1-4 producer goroutines with 1-40 generated jobs each (operator path with request ids / relay path with request id 0 / mixed, 0-200 data bytes, 0-12 scheduler yields x a per-producer pace of 1/8/40/150 before each AddJobToQueue), 0-4 tasks queued beforehand, one consumer doing check-ins through the real endpoint until all producers finished and the queue drained to a no-job reply; run under the race detector. Oracle: every delivered task is a queued one, none twice, none missing, per-producer order kept; race reports with a Havoc frame are violations (driver). Non-trivial: at least 2 producers were running both before and after some check-in (observed); distinct = (#producers, observed overlap, paths used, pre-queued, job-count bucket). SCALE (1 case in 40, on top of the generated producers): one count of the program is drawn from the threshold-adjacent pool {63,64,65, 127..129, 255..257, 511..513, 999..1001, 1023..1025, 2047..2049, 4095..4097, (thorough: 8191..8193)}: the jobs of one extra producer (a burst, or pausing every 16th job; pool cut at 4097 in the quick tier because the run is under the race detector), the number of producers (1-3 jobs each; cut at 129 quick / 513 thorough), or the number of tasks queued before the goroutines start (cut at 4097 / 8193); same oracle over everything delivered; labels scale:<count>:<bucket> also for the observed jobs-in-one-reply and check-ins",
 		Gen:  genC, Check: checkC, Classify: classifyC,
 		Assumptions: []string{"interleavings are sampled, not enumerated: the Go scheduler decides; the race detector turns unsynchronised access into a schedule-independent signal"},
 	})
